@@ -436,7 +436,7 @@ theorem checkRetx (h : KInv cfg k) : KInv cfg (Kernel.checkRetx cfg k) := by
   apply foldl_inv (P := KInv cfg)
   · apply foldl_inv (P := KInv cfg)
     · exact foldl_inv (P := fun acc : Kernel × List Nat × List Nat => KInv cfg acc.1) (Kernel.retxPass1Step cfg)
-        k.retxCands (k, [], []) h (fun b a hb => KInv.retxPass1Step b a hb)
+        (k.retxCands cfg) (k, [], []) h (fun b a hb => KInv.retxPass1Step b a hb)
     · intro b fd hb
       exact hb.emitHandshake fd
   · intro b fd hb
